@@ -19,7 +19,7 @@ CM = "konst::string::chars_methods::"
 def run(ctx):
     ctx.explanation = ("exact scalar-value set of from_u32; bit provenance of the UTF-8 encoder per length class and of the decoder "
                        "composed with it; one-step tables of the four char iterators; one-iteration relation of the boundary searches")
-    for cfg in (["FULL"] if ctx.tier == "quick" else ["FULL", "DEBUG"]):
+    for cfg in ["FULL", "DEBUG"]:   # string_to_usv differs under the debug feature
         prog = ctx.program(cfg)
         scalar(ctx, prog)
         enc = encode(ctx, prog)
